@@ -94,3 +94,55 @@ Proof.
   cbn [version clear_events].
   destruct (arch_next (wrapping c) (version s)); [|done]. destruct (slot_next (wrapping c) (snd e)); done.
 Qed.
+
+(* ---------------------------------------------------------------- wrapping_version *)
+
+Definition same_but_wrapping (c1 c2 : config) : Prop := events c1 = events c2 /\ debug c1 = debug c2.
+
+Lemma slot_next_wrapping_agrees v v' : in_ver v -> slot_next false v = Some v' -> slot_next true v = Some v'.
+Proof.
+  intros Hv H. destruct (slot_next_checked _ _ H) as [-> Hlt].
+  destruct (next_wrapping_conservative v Hv Hlt) as [E _]. by rewrite E.
+Qed.
+
+(** create and create_within_capacity never look at the feature; destroy differs only where the checked
+    counters overflow: every other outcome is literally the same. *)
+Theorem wrapping_only_replaces_the_overflow_panic c1 c2 k s h : wrapping c1 = false -> same_but_wrapping c1 c2 -> Inv s -> key32 h ->
+  match destroy c1 k s h with
+  | Panic PArchOverflow _ | Panic PSlotOverflow _ => True
+  | r => destroy c2 k s h = r
+  end.
+Proof.
+  intros Hw1 [He Hd] HI Hk. unfold destroy.
+  assert (Hr : resolve_key c2 k s h = resolve_key c1 k s h).
+  { destruct c1, c2. cbn in *. subst. done. }
+  rewrite Hr. pose proof (resolve_key_cases c1 k s h HI Hk) as Hc.
+  destruct (resolve_key c1 k s h) as [[[si d]|]|p|]; [|done|by destruct Hc as (-> & _)|done].
+  destruct Hc as (e & Hent & Hes & _).
+  rewrite (force_destroy_spec c1 s si d e HI Hent Hes), (force_destroy_spec c2 s si d e HI Hent Hes). rewrite Hw1.
+  destruct (fwd' s d e HI Hent) as (Hsl & _).
+  assert (Hve : in_ver (snd e)) by (exact (proj2 (i_ver s HI) _ _ Hsl)).
+  destruct (arch_next false (version s)) as [va|] eqn:Ha; [|done].
+  destruct (slot_next false (snd e)) as [vs'|] eqn:Hs; [|done]. cbn [rbind].
+  rewrite arch_next_eq in Ha.
+  assert (Ha2 : arch_next (wrapping c2) (version s) = Some va).
+  { rewrite arch_next_eq. destruct (wrapping c2); [|done]. by apply slot_next_wrapping_agrees; [apply (i_ver s HI)|]. }
+  assert (Hs2 : slot_next (wrapping c2) (snd e) = Some vs') by (destruct (wrapping c2); [by apply slot_next_wrapping_agrees|done]).
+  rewrite Ha2, Hs2. cbn [rbind]. unfold destroyed_state. by rewrite He.
+Qed.
+
+Theorem push_ignores_wrapping c1 c2 s vs : same_but_wrapping c1 c2 -> Inv s -> length vs = length (cols s) ->
+  push c1 s vs = push c2 s vs /\ push_within c1 s vs = push_within c2 s vs.
+Proof.
+  intros [He _] HI Hvs. split.
+  - destruct (push_spec c1 s vs HI Hvs) as [H1 _]. destruct (push_spec c2 s vs HI Hvs) as [H2 _].
+    inversion H1 as [h1 x1 L1 Hh1 Hx1 E1|n1 h1 x1 F1 N1 C1 Q1 Hh1 Hx1 E1|F1 C1 E1];
+    inversion H2 as [h2 x2 L2 Hh2 Hx2 E2|n2 h2 x2 F2 N2 C2 Q2 Hh2 Hx2 E2|F2 C2 E2]; try lia.
+    + rewrite Hh1 in Hh2. injection Hh2 as <-. rewrite Hx1 in Hx2. injection Hx2 as <-. unfold created_state. by rewrite He.
+    + subst n1 n2. rewrite Hh1 in Hh2. injection Hh2 as <-. rewrite Hx1 in Hx2. injection Hx2 as <-. unfold created_state. by rewrite He.
+    + done.
+  - pose proof (push_within_spec c1 s vs HI Hvs) as H1. pose proof (push_within_spec c2 s vs HI Hvs) as H2. case_decide.
+    + destruct H1 as (h1 & x1 & -> & _ & _ & Hh1 & Hx1). destruct H2 as (h2 & x2 & -> & _ & _ & Hh2 & Hx2).
+      rewrite Hh1 in Hh2. injection Hh2 as <-. rewrite Hx1 in Hx2. injection Hx2 as <-. unfold created_state. by rewrite He.
+    + by rewrite H1, H2.
+Qed.
